@@ -1,6 +1,7 @@
 CONSTANTS MaxSteps = 3
           Stride = 8
-          PoolStride = 12007
+          PoolStride = 53
+          ZStride = 25
           Gen = FALSE
           Form = "pairs"
           Memo = "conv"
